@@ -4,7 +4,8 @@ SyltAnnot (TLA+) defines the annotation sites of a program and the erasure unive
 programs are emitted by TLC with their site counts:
   * MC_Annot: SyltGen's pairwise-nesting programs,
   * MC_AnnotFam: the annotation-type families of SyltAnnotFam (G: generic / structured nominal types at two
-    instantiations, S: generic function signatures, F: function-typed variable definitions).
+    instantiations, S: generic function signatures, F: function-typed variable definitions, L: annotations naming
+    types that are declared later in the file, in every order, M: qualified type names in multi-file projects).
 The harness compiles every erasure variant of every program; MC_AnnotVal checks the recorded results: the
 record must cover the spec's mask universe (Assert: a tool error otherwise), every variant must be accepted and all
 variants of one program must have the same Lua digest.
@@ -23,6 +24,15 @@ G_INNERS = {"bare", "app", "part"}
 G_SITES = {"varc", "varm", "param", "ret", "pret", "lam", "lamret", "global", "gparam", "gret", "gpret"}
 G_CTXS = {"plain", "clo", "loop", "arm", "ifarm", "block", "method"}
 G_PLACES = {"same12", "same21", "u1fn_before", "u1fn_after", "u2fn_before", "u2fn_after"}
+L_MENTIONS = {"tup", "list", "fnret", "garg", "tuplist", "nest", "enum", "opt"}
+L_FORMS = {"list", "opt", "tuplist", "ulist", "uopt", "boxlist"}
+L_KINDS = {"gvar", "gmut", "gfnret", "gfnpar", "local"}
+L_ORDERS = {o + ":" + r for o in ("DTU", "DUT", "TDU", "TUD", "UDT", "UTD") for r in ("before", "after")}
+M_ROUTES = {"one", "alias", "chain", "chainin", "chainas", "mixed", "reexp", "from", "fromas", "folder", "folderas", "path",
+            "pathas", "rooted", "srel", "sroot", "schain", "sfolder"}
+M_FORMS = {"color", "variant", "pt", "boxbare", "boxapp", "boxlit", "listcolor", "tup", "boxcolor"}
+M_HOSTS = {"main", "mid", "sub"}
+FAMS = "PGSFLM"
 # records per validation run (bounds TLC's memory in the thorough tier; the chunks are independent)
 CHUNK = 3000
 
@@ -67,42 +77,48 @@ def run(ctx):
         r = vlib.tlc("MC_Annot", wd=wd, env={"SAMPLE": 500 if quick else 0}, timeout=tmo, xmx="12g", extra=tseed)
         vlib.require_tlc_ok(r, "MC_Annot emit")
         # universe 2: annotation-type families (quick: family S complete, seeded random subsets of G and F)
-        rf = vlib.tlc("MC_AnnotFam", wd=wd, env={"GSAMPLE": 700 if quick else 0, "FSAMPLE": 120 if quick else 0},
+        rf = vlib.tlc("MC_AnnotFam", wd=wd, env={"GSAMPLE": 700 if quick else 0, "FSAMPLE": 120 if quick else 0,
+                                                 "LSAMPLE": 300 if quick else 0, "MSAMPLE": 300 if quick else 0},
                       timeout=tmo, xmx="12g", extra=tseed)
         vlib.require_tlc_ok(rf, "MC_AnnotFam emit")
         seen = set()
         cases = []
         for c in [p for (_, p) in r.records] + [p for (_, p) in rf.records]:
-            h = vlib.sha(c["tops"])
+            h = vlib.sha([c["tops"], c.get("files") or []])
             if h not in seen:
                 seen.add(h)
                 cases.append(c)
-        nfam = {f: sum(1 for c in cases if family(c) == f) for f in "PGSF"}
+        nfam = {f: sum(1 for c in cases if family(c) == f) for f in FAMS}
         ev.set(emitted_programs=len(cases), emitted_per_family=nfam, states=r.distinct + rf.distinct,
                transitions=r.generated + rf.generated)
         if quick:
             rnd = random.Random(ctx.seed)
             p = [c for c in cases if family(c) == "P"]
             cases = rnd.sample(p, min(len(p), 600)) + [c for c in cases if family(c) != "P"]
-            nfam = {f: sum(1 for c in cases if family(c) == f) for f in "PGSF"}
+            nfam = {f: sum(1 for c in cases if family(c) == f) for f in FAMS}
         # vacuity guards: enough programs of every family, every dimension of family G exercised
-        need = {"P": 500, "G": 600, "S": 130, "F": 100} if quick else {"P": 10000, "G": 8000, "S": 130, "F": 400}
-        for f in "PGSF":
+        need = ({"P": 500, "G": 600, "S": 130, "F": 100, "L": 280, "M": 280} if quick
+                else {"P": 10000, "G": 8000, "S": 130, "F": 400, "L": 2800, "M": 3100})
+        for f in FAMS:
             if nfam[f] < need[f]:
                 vlib.tool_error("vacuity: only %d programs of family %s (need %d)" % (nfam[f], f, need[f]))
-        dims = [set(), set(), set(), set(), set(), set()]
-        for c in cases:
-            if family(c) == "G":
-                i = c["id"]
-                _, g, n, f = i["o"].split(":")
-                s, cx, _ = i["i"].split(":")
-                pl = i["h"].split(":")[0]
-                for d, x in zip(dims, (g, n, f, s, cx, pl)):
-                    d.add(x)
-        for d, want, name in zip(dims, (G_KINDS, G_NESTS, G_INNERS, G_SITES, G_CTXS, G_PLACES),
-                                 ("kinds", "nests", "inner forms", "sites", "contexts", "placements")):
-            if d != want:
-                vlib.tool_error("vacuity: family G %s exercised %s, expected %s" % (name, sorted(d), sorted(want)))
+        def dims_guard(fam, extract, wants):
+            got = [set() for _ in wants]
+            for c in cases:
+                if family(c) == fam:
+                    for d, x in zip(got, extract(c["id"])):
+                        d.add(x)
+            for d, (name, want) in zip(got, wants):
+                if d != want:
+                    vlib.tool_error("vacuity: family %s %s exercised %s, expected %s" % (fam, name, sorted(d), sorted(want)))
+
+        dims_guard("G", lambda i: i["o"].split(":")[1:] + i["i"].split(":")[:2] + i["h"].split(":")[:1],
+                   [("kinds", G_KINDS), ("nests", G_NESTS), ("inner forms", G_INNERS), ("sites", G_SITES), ("contexts", G_CTXS),
+                    ("placements", G_PLACES)])
+        dims_guard("L", lambda i: i["o"].split(":")[1:] + [i["i"], i["h"]],
+                   [("mention positions", L_MENTIONS), ("annotation forms", L_FORMS), ("definition kinds", L_KINDS), ("orders", L_ORDERS)])
+        dims_guard("M", lambda i: i["o"].split(":")[1:] + [i["i"], i["h"]],
+                   [("routes", M_ROUTES), ("forms", M_FORMS), ("sites", G_SITES), ("hosts", M_HOSTS)])
 
     cf = os.path.join(wd, "cases.ndjson")
     tf = os.path.join(wd, "trace.ndjson")
@@ -138,7 +154,7 @@ def run(ctx):
 
     if not ctx.replay:
         # negative control: salted digest must be rejected by the specification (programs of both universes)
-        sub = [c for c in cases if family(c) == "P"][:20] + [c for c in cases if family(c) != "P"][:20]
+        sub = sum(([c for c in cases if family(c) == f][:8] for f in FAMS), [])
         ncf = os.path.join(wd, "neg-cases.ndjson")
         ntf = os.path.join(wd, "neg-trace.ndjson")
         vlib.write_ndjson(ncf, sub)
@@ -153,19 +169,19 @@ def run(ctx):
 
     ev.add("states", vstates)
     ev.add("transitions", vtrans)
-    perfam = {f: sum(1 for c in cases if family(c) == f) for f in "PGSF"}
+    perfam = {f: sum(1 for c in cases if family(c) == f) for f in FAMS}
     samples = []
-    for f in "PGSF":
+    for f in FAMS:
         samples += [{"id": r_["id"], "nsites": r_["nsites"], "nprelude": r_["nprelude"], "variants": len(r_["results"])}
                     for (c, r_) in zip(cases, recs) if family(c) == f][:2]
     ev.set(traces_validated_against_impl=len(recs), programs=len(recs), programs_per_family=perfam, evaluations=nvariants,
            distinct_nontrivial=len(recs), programs_with_all_subsets=exhaustive_programs,
            exhaustive=(tier == "thorough"),
-           rule="P: programs of SyltGen's pairwise-nesting universe (quick: seeded sample of 600); G / S / F: the annotation-type families "
-                "of SyltAnnotFam (quick: all of S, seeded samples of 700 of G and 120 of F; every kind, nest, inner form, site, context "
-                "and placement of G must occur); per program every mask of SyltAnnot!Masks (all subsets of the program-specific sites "
-                "when <= %d - always the case in G / S / F -, plus all-on/all-off/single-off/single-on/prefix-off over all sites); "
-                "a program is non-trivial when it has >= 1 site of its own (asserted by TLC for G / S / F; all P have >= 20)" % maxexh,
+           rule="P: programs of SyltGen's pairwise-nesting universe (quick: seeded sample of 600); G / S / F / L / M: the annotation-type "
+                "families of SyltAnnotFam (quick: all of S, seeded samples of 700 of G, 120 of F, 300 of L, 300 of M; every value of every "
+                "dimension of G, L and M must occur); per program every mask of SyltAnnot!Masks (all subsets of the program-specific sites "
+                "when <= %d - always the case in the families -, plus all-on/all-off/single-off/single-on/prefix-off over all sites); "
+                "a program is non-trivial when it has >= 1 site of its own (asserted by TLC for the families; all P have >= 20)" % maxexh,
            samples=samples,
            known_findings_hit=verdicts.known_hits)
     ev.assume("annotation sites are variable definitions whose value is not a function literal (function-typed values included), parameters of "
